@@ -4,7 +4,7 @@ namespace Ecal.Pool
 
 /-- workers that will look at the queue (and the kill counter) again before they sleep -/
 def awake (f : Cls → Nat) : Nat :=
-  f .head + f .chk + f .run + f .noTask + f .idleReg + f .hasL + f .readQT + f .woken + f .unlocking + f .unreg
+  f .head + f .chkT + f .chkF + f .run + f .noTask + f .idleReg + f .hasL + f .readQT + f .woken + f .unlocking + f .unreg
 
 /-- workers that decided to sleep -/
 def asleep (f : Cls → Nat) : Nat := f .willWait + f .waiting
@@ -34,6 +34,23 @@ theorem cinv_step {s s' : CState} {e : CEvent} (hi : CInv s) (h : cstep s e = so
   | popNone ok =>
     cases ok <;> simp [cstep, CState.mv, clockFree, holders] at h <;> obtain ⟨_, _, rfl⟩ := h <;>
       constructor <;> simp [move, holders, awake, asleep, CState.inflight] <;> omega
+  | pop ok =>
+    cases ok <;> simp [cstep, CState.mv, clockFree, holders] at h <;> obtain ⟨_, _, rfl⟩ := h <;>
+      constructor <;> simp [move, holders, awake, asleep, CState.inflight] <;> omega
+  | killPass =>
+    by_cases hj : s.kill = -1 <;> simp [cstep, CState.mv, hj] at h <;>
+      (first | (obtain ⟨_, _, rfl⟩ := h) | (obtain ⟨_, rfl⟩ := h)) <;>
+      constructor <;> simp [move, holders, awake, asleep, CState.inflight, hj] <;> omega
+  | swcSet c =>
+    simp only [cstep] at h
+    split at h
+    · simp at h; subst h
+      constructor <;> simp [caddHead, holders, awake, asleep, CState.inflight] <;> omega
+    · split at h
+      · simp at h; subst h
+        constructor <;> simp [holders, awake, asleep, CState.inflight] <;> omega
+      · simp at h; subst h
+        constructor <;> simp [holders, awake, asleep, CState.inflight] <;> omega
   | readQ =>
     simp only [cstep] at h
     split at h <;> simp [CState.mv] at h <;> obtain ⟨_, rfl⟩ := h <;>
@@ -77,6 +94,82 @@ theorem cinv_reachable {c : CState} (h : CReachable c) : CInv c := by
     cases hs : cstep c0 e with
     | none => simp [hs] at h
     | some c1 => simp [hs] at h; exact ih c1 (cinv_step h0 hs) h
+
+/-- events that (re)set the kill counter: a new resize or JoinAll -/
+def CEvent.isResize : CEvent → Bool
+  | .swcSet _ | .swcUp _ | .swcDown _ | .joinKill => true
+  | _ => false
+
+/-- after `SetWorkerCount(c)` (repaired): the workers not yet told to exit minus the kill requests
+    still to be taken are exactly `c`; no worker is on JoinAll's exit-when-drained path -/
+def CResize (c : Nat) (s : CState) : Prop :=
+  0 ≤ s.kill ∧ (clive s.cnt : Int) = c + s.kill ∧ s.cnt .chkF = 0
+
+theorem cresize_set {s s' : CState} {c : Nat} (hj : s.cnt .chkF = 0) (hk : 0 ≤ s.kill)
+    (h : cstep s (.swcSet c) = some s') : CResize c s' := by
+  simp only [cstep] at h
+  split at h
+  · simp at h; subst h
+    refine ⟨by simp, ?_, by simpa [caddHead] using hj⟩
+    simp [clive, caddHead]; simp only [clive] at *; omega
+  · split at h
+    · simp at h; subst h
+      refine ⟨?_, ?_, hj⟩ <;> simp <;> omega
+    · simp at h; subst h
+      refine ⟨by simp, ?_, hj⟩
+      simp; omega
+
+theorem cresize_step {s s' : CState} {c : Nat} {e : CEvent} (hi : CResize c s) (he : e.isResize = false)
+    (h : cstep s e = some s') : CResize c s' := by
+  obtain ⟨hk, hl, hj⟩ := hi
+  simp only [clive] at hl
+  cases e with
+  | swcSet _ => simp [CEvent.isResize] at he
+  | swcUp _ => simp [CEvent.isResize] at he
+  | swcDown _ => simp [CEvent.isResize] at he
+  | joinKill => simp [CEvent.isResize] at he
+  | popNone ok =>
+    cases ok <;> simp [cstep, CState.mv] at h
+    · omega
+    · obtain ⟨_, _, rfl⟩ := h
+      refine ⟨hk, ?_, ?_⟩ <;> simp [clive, move] <;> omega
+  | pop ok =>
+    cases ok <;> simp [cstep, CState.mv] at h
+    · omega
+    · obtain ⟨_, _, rfl⟩ := h
+      refine ⟨hk, ?_, ?_⟩ <;> simp [clive, move] <;> omega
+  | killPass =>
+    have hj' : s.kill ≠ -1 := by omega
+    simp [cstep, CState.mv, hj'] at h
+    obtain ⟨_, _, rfl⟩ := h
+    refine ⟨hk, ?_, ?_⟩ <;> simp [clive, move] <;> omega
+  | killExit =>
+    simp [cstep, CState.mv] at h
+    obtain ⟨_, _, rfl⟩ := h
+    refine ⟨by simp; omega, ?_, ?_⟩ <;> simp [clive, move] <;> omega
+  | readQ =>
+    simp only [cstep] at h
+    split at h <;> simp [CState.mv] at h <;> obtain ⟨_, rfl⟩ := h <;>
+      refine ⟨hk, ?_, ?_⟩ <;> simp [clive, move] <;> omega
+  | readKill p =>
+    cases p <;> by_cases hk0 : s.kill = 0 <;> simp [cstep, CState.mv, hk0] at h <;> obtain ⟨_, rfl⟩ := h <;>
+      refine ⟨by simp [hk0] <;> omega, ?_, ?_⟩ <;> simp [clive, move, hk0] <;> omega
+  | aSignal w =>
+    cases w <;> simp [cstep, CState.mv] at h <;> obtain ⟨_, _, rfl⟩ := h <;>
+      refine ⟨hk, ?_, ?_⟩ <;> simp [clive, move] <;> omega
+  | swcBcast =>
+    simp [cstep] at h; obtain ⟨_, rfl⟩ := h
+    refine ⟨hk, ?_, ?_⟩ <;> simp [clive, cwakeAll] <;> omega
+  | bcast =>
+    simp [cstep] at h; subst h
+    refine ⟨hk, ?_, ?_⟩ <;> simp [clive, cwakeAll] <;> omega
+  | _ =>
+    simp [cstep, CState.mv, clockFree, holders] at h <;>
+    (first
+      | (obtain ⟨_, _, rfl⟩ := h)
+      | (obtain ⟨_, rfl⟩ := h)
+      | subst h) <;>
+    refine ⟨hk, ?_, ?_⟩ <;> simp [clive, move] <;> omega
 
 /-- reachable states of the per-worker LTS abstract to reachable counting states -/
 theorem reachable_abs {s : State} (h : Reachable repaired s) : CReachable (abs s) := by
